@@ -662,6 +662,18 @@ FORCED_CHAINS = [(None, "map", "named", "array", 0), (None, "map", "tuple", "map
                  ("map", "array", "tuple", None, 3), ("map", None, "named", "map", 1), (None, None, "tuple", "array", 4)]
 
 
+def chain_opt(e, force):
+    """The optional enum field of a chain; in some forced chains behind a pass-through codec without
+    nil functions (spelled `Option<..>`, which the macros must still treat as optional)."""
+    t = opt(named(e))
+    if force and force[4] in (1, 3):
+        while not t.rust.startswith("Option<"):
+            t = opt(named(e))
+        parts = ['with = "dsupport::codecs::pass"'] if force[4] == 1 else ['decode_with = "dsupport::codecs::pass::decode"', 'encode_with = "dsupport::codecs::pass::encode"', 'cbor_len = "dsupport::codecs::pass::cbor_len"']
+        t.attrs = parts
+    return t
+
+
 def gen_chain(rnd, cid, pool, force=None):
     """A chain of versions of one struct (and of an enum used only as an optional field)."""
     import copy
@@ -699,7 +711,7 @@ def gen_chain(rnd, cid, pool, force=None):
         s.fields.append(Field("tr", max(used) + 1, named(TRANSP[cid % len(TRANSP)])))
         used = set(f.index for f in s.fields)
     ei = max(used) + (3 if force else rnd.choice([1, 2, 3]))   # forced chains keep gap indices free
-    s.fields.append(Field("en", ei, opt(named(e)), tag=rnd.choice([None, None, 6])))
+    s.fields.append(Field("en", ei, chain_opt(e, force), tag=rnd.choice([None, None, 6])))
     # make sure there is room for gap insertions: shift some indices up
     finish(s)
     versions.append(s)
@@ -764,7 +776,7 @@ def gen_chain(rnd, cid, pool, force=None):
         for f in ns.fields:
             f.name = "%s_%d" % (f.name.split("_")[0], step)   # renaming everything
         finish(ne)
-        ns.fields.append(Field("en", enf.index, opt(named(ne)), tag=enf.tag))
+        ns.fields.append(Field("en", enf.index, chain_opt(ne, force), tag=enf.tag))
         rnd.shuffle(ns.fields)
         finish(ns)
         versions.append(ns)
